@@ -300,4 +300,130 @@ theorem spec_parseClientFieldDeclarationInner (fuel : Nat) (ex : Option Bytes) :
         exact (good_body_field ..).2 ⟨by simp [hp.1], by simp [hn.1], hv, hd, hde, hset', hs⟩
   exact Spec.bindL (spec_withLoc hinner) fun r hr => Spec.pure _ (declOK_toDecl _ _ hr.1 hr.2.1 hr.2.2)
 
+/-- `parse_client_pointer_target_type` -/
+theorem spec_parseClientPointerTargetType (fuel : Nat) : Spec src true (parseClientPointerTargetType fuel) (Good src) := by
+  unfold parseClientPointerTargetType
+  refine Spec.bindL (spec_sourceOfKind .Identifier .TO (by decide)) fun kw hkw => ?_
+  split
+  · exact Spec.fail _ hkw.1
+  · exact (spec_parseType fuel).toFalse
+
+/-- `parse_client_pointer_declaration_inner` -/
+theorem spec_parseClientPointerDeclarationInner (fuel : Nat) (ex : Option Bytes) :
+    Spec src true (parseClientPointerDeclarationInner fuel ex) (DeclOK src) := by
+  unfold parseClientPointerDeclarationInner
+  have hinner : Spec src true (do
+      let parent ← sourceOfKind .Identifier .SERVER_OBJECT_TYPE
+      let _ ← tokenOfKind .Period .DOT
+      let name ← sourceOfKind .Identifier .CLIENT_SELECTABLE_NAME
+      let vars ← parseVariableDefinitions fuel
+      let target ← parseClientPointerTargetType fuel
+      let dirs ← parseDirectives fuel
+      let desc ← parseOptionalDescription
+      let set ← parseOptionalSelectionSet fuel
+      match set with
+      | none => fail ⟨.selset, .span ⟨0, 0⟩⟩
+      | some set =>
+        match ex with
+        | none => fail ⟨.exportName, .span name.span⟩
+        | some ex =>
+          let sem ← revSem
+          pure (DeclBody.pointer parent name vars target dirs desc set ex sem))
+      (fun b => Good src b ∧ SemFinal src b.sem) := by
+    refine Spec.bindL (spec_sourceOfKind .Identifier .SERVER_OBJECT_TYPE (by decide)) fun parent hp => ?_
+    refine Spec.bindF (spec_tokenOfKind .Period .DOT (by decide)) fun _ _ => ?_
+    refine Spec.bindF (spec_sourceOfKind .Identifier .CLIENT_SELECTABLE_NAME (by decide)) fun name hn => ?_
+    refine Spec.bindF (spec_parseVariableDefinitions fuel) fun vars hv => ?_
+    refine Spec.bindF (spec_parseClientPointerTargetType fuel) fun target ht => ?_
+    refine Spec.bindF (spec_parseDirectives fuel) fun dirs hd => ?_
+    refine Spec.bindF spec_parseOptionalDescription fun desc hde => ?_
+    refine Spec.bindF (spec_parseOptionalSelectionSet fuel) fun set hset => ?_
+    split
+    · exact Spec.fail _ (goodSpan_zero src)
+    · split
+      · exact Spec.fail _ hn.1
+      · refine Spec.bindF spec_revSem' fun sem hsem => Spec.pure _ ⟨?_, hsem⟩
+        have hs := good_of_semFinal sem hsem
+        have hset' := hset
+        simp only [good_some] at hset'
+        exact (good_body_pointer ..).2 ⟨by simp [hp.1], by simp [hn.1], hv, ht, hd, hde, hset', hs⟩
+  exact Spec.bindL (spec_withLoc hinner) fun r hr => Spec.pure _ (declOK_toDecl _ _ hr.1 hr.2.1 hr.2.2)
+
+/-- `parse_iso_entrypoint_declaration` -/
+theorem spec_parseEntrypointInner (fuel : Nat) (kw : Span) (hkw : GoodSpan src kw) :
+    Spec src true (parseEntrypointInner fuel kw) (DeclOK src) := by
+  unfold parseEntrypointInner
+  have hinner : Spec src true (do
+      let parent ← sourceOfKind .Identifier .SERVER_OBJECT_TYPE
+      let dot ← tokenOfKind .Period .DOT
+      let name ← sourceOfKind .Identifier .CLIENT_SELECTABLE_NAME
+      let dirs ← parseDirectives fuel
+      let sem ← revSem
+      pure (DeclBody.entrypoint parent name kw (tokSpan dot) dirs sem)) (fun b => Good src b ∧ SemFinal src b.sem) := by
+    refine Spec.bindL (spec_sourceOfKind .Identifier .SERVER_OBJECT_TYPE (by decide)) fun parent hp => ?_
+    refine Spec.bindF (spec_tokenOfKind .Period .DOT (by decide)) fun dot hdot => ?_
+    refine Spec.bindF (spec_sourceOfKind .Identifier .CLIENT_SELECTABLE_NAME (by decide)) fun name hn => ?_
+    refine Spec.bindF (spec_parseDirectives fuel) fun dirs hd => ?_
+    refine Spec.bindF spec_revSem' fun sem hsem => Spec.pure _ ⟨?_, hsem⟩
+    exact (good_body_entrypoint ..).2 ⟨hkw, hdot.1, by simp [hp.1], by simp [hn.1], hd, good_of_semFinal sem hsem⟩
+  exact Spec.bindL (spec_withLoc hinner) fun r hr => Spec.pure _ (declOK_toDecl _ _ hr.1 hr.2.1 hr.2.2)
+
+theorem spec_noLeftover (d : Decl) (hd : DeclOK src d) : Spec src false (noLeftover d) (DeclOK src) := by
+  unfold noLeftover
+  refine Spec.bindF spec_remainingTokenSpan fun o ho => ?_
+  split
+  · rename_i sp
+    have hsp : GoodSpan src sp := by simpa using ho
+    exact Spec.fail _ hsp
+  · exact Spec.pure _ hd
+
+/-- `parse_iso_literal` (after `PeekableLexer::new`) -/
+theorem spec_parseIsoLiteral (fuel : Nat) (ex : Option Bytes) : Spec src false (parseIsoLiteral fuel ex) (DeclOK src) := by
+  unfold parseIsoLiteral
+  refine Spec.bindF spec_peek fun disc hdisc => ?_
+  refine Spec.bindF (spec_source _ hdisc) fun text _ => ?_
+  split
+  · refine Spec.bindF (spec_sourceOfKind .Identifier .KEYWORD_USE (by decide)) fun kw hkw => ?_
+    exact Spec.bindF (spec_parseEntrypointInner fuel kw.span hkw.1) fun d hd => spec_noLeftover d hd
+  · split
+    · refine Spec.bindF (spec_sourceOfKind .Identifier .KEYWORD_DECLARATION (by decide)) fun _ _ => ?_
+      exact Spec.bindF (spec_parseClientFieldDeclarationInner fuel ex) fun d hd => spec_noLeftover d hd
+    · split
+      · refine Spec.bindF (spec_sourceOfKind .Identifier .KEYWORD_DECLARATION (by decide)) fun _ _ => ?_
+        exact Spec.bindF (spec_parseClientPointerDeclarationInner fuel ex) fun d hd => spec_noLeftover d hd
+      · exact Spec.fail _ hdisc
+
+/-! ### the initial state -/
+
+theorem chain_of_tokens : ∀ (toks : List (Tok IsoKind)) (lo : Nat),
+    toks.Pairwise (fun a b => a.e ≤ b.s) →
+    (∀ t ∈ toks, lo ≤ t.s ∧ t.s < t.e ∧ GoodPos src t.s ∧ GoodPos src t.e ∧ TextOK src t) → Chain src lo toks
+  | [], _, _, _ => trivial
+  | t :: ts, lo, hp, h => by
+    have ht := h t (by simp)
+    obtain ⟨hp1, hp2⟩ := List.pairwise_cons.1 hp
+    refine ⟨ht.1, ht.2.1, ht.2.2.1, ht.2.2.2.1, ht.2.2.2.2, chain_of_tokens ts t.e hp2 ?_⟩
+    intro u hu
+    have := h u (by simp [hu])
+    exact ⟨hp1 u hu, this.2⟩
+
+/-- `PeekableLexer::new` establishes the invariant (given the lexer fact about string tokens) -/
+theorem wf_new (src : Bytes) (htext : ∀ t ∈ isoTokens src, TextOK src t) : WF src (PL.new src) := by
+  have hall : ∀ t ∈ isoTokens src, 0 ≤ t.s ∧ t.s < t.e ∧ GoodPos src t.s ∧ GoodPos src t.e ∧ TextOK src t := by
+    intro t ht
+    have hb := lex_boundaries isoLexer src t ht
+    have hi := lex_inside isoLexer src t ht
+    have hn := lex_nonempty isoLexer src t ht
+    exact ⟨Nat.zero_le _, hn, ⟨by omega, hb.1⟩, ⟨hi, hb.2⟩, htext t ht⟩
+  have hchain := chain_of_tokens (src := src) (isoTokens src) 0 (lex_sorted isoLexer src) hall
+  unfold PL.new
+  cases h : isoTokens src with
+  | nil =>
+    exact ⟨rfl, goodPos_zero src, Nat.zero_le _, goodPos_len src, goodPos_len src, Nat.le_refl _, by simp,
+      by simp [TextOK], trivial, trivial⟩
+  | cons t ts =>
+    rw [h] at hchain
+    obtain ⟨h1, h2, h3, h4, h5, h6⟩ := hchain
+    exact ⟨rfl, goodPos_zero src, h1, h3, h4, Nat.le_of_lt h2, fun _ => h2, h5, h6, trivial⟩
+
 end IsoVerif.IsoParse
